@@ -19,6 +19,7 @@ Generated once by harness/mkprops.py from harness/props_table.py + PGProperties/
 -/
 import PGProofs.Glue
 import PGProofs.DemographyThm
+import PGProofs.EndToEnd2
 
 set_option linter.all false
 set_option pp.fieldNotation.generalized false
@@ -53,6 +54,9 @@ theorem pinned_counterexample : gatherPinned [2, 1 / 2, 1] (List.map (fun t ↦ 
 /-- it is right when the sorting permutation is an involution (why reversed / sorted inputs hid the defect) -/
 theorem pinned_correct_only_for_involutions : type_of% @PG.gatherPinned_of_involutive := @PG.gatherPinned_of_involutive   -- (printed statement does not re-elaborate; see the source lemma)
 
+/-- entry i of a vector cdf call is the labelled cdf at times[i], whatever the other times -/
+theorem end_to_end_cdf_vector : ∀ {D : ℕ} {K : Type} [inst : Field K] [inst_1 : LinearOrder K] [inst_2 : IsStrictOrderedRing K] {m : Model} {cinit : Fin D → ℕ} {ts : ℕ → Fin D → ℚ} {mig : ℕ → Fin D → Fin D → ℚ} {r : ℕ → ℚ} {fuel : ℕ → ℕ} {G : ℕ → Graph}, (∀ (e : ℕ), bfs (transit m (mkEpoch (ts e) (mig e) (r e))) (encLC cinit) (fuel e) = some (G e)) → ∀ (L : ExpLaw K) (n : ℕ) (c0 : Fin D → ℕ) (x0 : Assembly.LabS encLC (G 0).visited (∑ d, cinit d)), cntF (Assembly.LabP.val x0) = c0 → ∀ (eps : List EpochT) (times : List ℚ), (∀ t ∈ times, 0 ≤ t) → ∃ out, EndToEnd.cdfCallK L G n c0 eps times = Except.ok out ∧ List.length out = List.length times ∧ ∀ (i : ℕ) (hi : i < List.length times), List.getD out i 0 = EndToEnd.labCdf L m ts mig G cinit n x0 eps times[i] := @PG.EndToEnd.cdf_call_entry_eq_labelled
+
 /-! ## hand-written part: glue, non-vacuity examples, counterexamples -/
 /-- the statement on a concrete 3-cycle: the repaired scatter returns the values in input order -/
 theorem example_three_cycle : scatterBack [2, 1/2, 1] ((sortRat [2, 1/2, 1]).map fun t => 10 * t) = [20, 5, 10] := by
@@ -69,4 +73,5 @@ end PG.C07
 #print axioms PG.C07.sorted
 #print axioms PG.C07.pinned_counterexample
 #print axioms PG.C07.pinned_correct_only_for_involutions
+#print axioms PG.C07.end_to_end_cdf_vector
 #print axioms PG.C07.example_three_cycle
